@@ -231,7 +231,7 @@ class CallMixin:
             qual = "builtins." + fv.name
         elif isinstance(fv, Sym):
             qual = fv.name
-        data = dict(name=name, qual=qual, callee=fv, recv=recv, recv_ref=recv_ref, method=method, args=list(args),
+        data = dict(discarded=(node is getattr(self, "_stmt_call", None)), name=name, qual=qual, callee=fv, recv=recv, recv_ref=recv_ref, method=method, args=list(args),
                     kwargs=dict(kwargs), field=self.field_of(recv_ref) if recv_ref is not None else None,
                     text=ast.unparse(node.func) if hasattr(node, "func") else name)
         eff = self.effect("call", node, fr, **data)
@@ -266,6 +266,18 @@ class CallMixin:
             return fv.fn(self, args, kwargs, node, fr)
         if qual == "typing.cast" and len(args) == 2:
             return args[1]
+        if qual == "itertools.chain":
+            out = []
+            for a in args:
+                items = self.concrete_iter(a)
+                if items is None:
+                    out = None
+                    break
+                out.extend(items)
+            if out is not None:
+                from .stmts import _ConcreteIter
+
+                return _ConcreteIter(out)
         if qual == "collections.defaultdict" and len(args) <= 1 and not kwargs:
             from collections import defaultdict
 
@@ -299,8 +311,6 @@ class CallMixin:
 
     def should_inline(self, fi: FuncInfo, fr) -> bool:
         if fr.depth + 1 > self.opts.max_depth:
-            return False
-        if fi.is_generator:
             return False
         inl = self.opts.inline
         if inl is None:
@@ -349,10 +359,16 @@ class CallMixin:
         if a.kwarg:
             nf.locals[a.kwarg.arg] = Cell({k: v for k, v in kw.items() if not k.startswith("**")})
         self.effect("enter", node, nf, qual=fi.qual)
+        if fi.is_generator:
+            nf.gen_acc = []
         try:
             r = self.exec_function_body(nf)
         finally:
             self.effect("leave", node, nf, qual=fi.qual)
+        if fi.is_generator:
+            from .stmts import _ConcreteIter
+
+            return _ConcreteIter(nf.gen_acc)
         return r
 
     def eval_default(self, d, fi, closure):
